@@ -539,7 +539,7 @@ def prepare(args):
 
 # ------------------------------------------------------------------ running
 def run_impl_cases(cases, tag):
-    nw = min(cm.NCPU, max(1, len(cases) // 200))
+    nw = min(8, max(1, len(cases) // 2500))     # each worker pays ~10 s of imports: few, large chunks
     chunks = [cases[i::nw] for i in range(nw)]
     res = cm.run_impl_parallel(PID, "c18", [dict(cases=[c["pts"] for c in ch]) for ch in chunks], timeout=900, tag=tag)
     out = [None] * len(cases)
@@ -822,20 +822,20 @@ def gen_cases(R, tier, replay):
         for pts in lattice_all(3):
             cases.append(dict(pts=pts, gen="lattice3:k3"))
         seen = set()
-        while len(seen) < 60000:
+        while len(seen) < 30000:
             pts = lattice_sample(R.rng, 4, (-1, 0, 1))
             key = tuple(x for p in pts for x in p)
             if key not in seen:
                 seen.add(key)
                 cases.append(dict(pts=pts, gen="lattice3:k4"))
-        for k, n in ((2, 2000), (3, 8000), (4, 15000)):
+        for k, n in ((2, 1000), (3, 5000), (4, 9000)):
             for _ in range(n):
                 cases.append(dict(pts=lattice_sample(R.rng, k, (-2, -1, 0, 1, 2)), gen=f"lattice5:k{k}"))
-    for _ in range(2000 if quick else 30000):
+    for _ in range(2000 if quick else 20000):
         cases.append(gen_grid(R.rng))
-    for _ in range(1600 if quick else 30000):
+    for _ in range(1600 if quick else 20000):
         cases.append(gen_real(R.rng))
-    for _ in range(800 if quick else 15000):
+    for _ in range(800 if quick else 10000):
         cases.append(gen_scaled(R.rng))
     return cases
 
@@ -848,7 +848,7 @@ def run(tier, seed, replay=None):
     R = cm.Run(PID, "proof", tier, seed)
     R.cov["rule"] = (
         "case = 1..4 points. Streams: ALL configurations with coordinates in {-1,0,1} for k=1,2 (756), k=3: quick a distinct "
-        "seeded sample of 2000 / thorough all 19683, k=4: distinct seeded sample (quick 2500 / thorough 60000 of 531441); thorough: "
+        "seeded sample of 2000 / thorough all 19683, k=4: distinct seeded sample (quick 2500 / thorough 30000 of 531441); thorough: "
         "sampled {-2..2}^(3k); integer grids |coordinate| <= 72 with exact duplicates/collinear/coplanar/mirrored points (all "
         "arithmetic up to degree 6 exact in binary64); random real configurations: extents (1,s2,s3) with s log-uniform in "
         "[1e-12,1], random rotation, origin inside/near/far/near-vertex/near-edge, kinds aniso/iso/wellcond/duplicate point/"
